@@ -112,8 +112,29 @@ def sc_batch_only(B, C, D, N):
     return o
 
 
+def sc_extreme(B, chunks=None):
+    """large mean^2/variance ratios (float cancellation matters); real backend only"""
+    import numpy as np
+    from symexec.engine import Outcome
+
+    gmm = B.mod("gmm")
+    m = gmm.GMMMachine(2)
+    mu = np.array([[1.0e6, -3.0], [1.0e6 + 2.0e-3, 5.0]])
+    v = np.array([[1.0e-6, 2.0], [4.0e-6, 0.5]])
+    m.weights, m.means, m.variance_thresholds, m.variances = np.array([0.3, 0.7]), mu, 1e-12, v
+    X = np.array([[1.0e6 + 1.0e-3, -2.0], [1.0e6 - 2.0e-3, 4.0], [1.0e6 + 3.0e-3, 0.5]])
+    P = dict(C=2, D=2, w=[0.3, 0.7], mu=mu.tolist(), v=v.tolist())
+    data = X if chunks is None else B.darr(X, (chunks, (2,)))
+    o = Outcome()
+    o.equal("extreme-scales", m.log_likelihood(data), [o_ll(B, P, X[i]) for i in range(3)])
+    o.equal("extreme-scales-stats", m.acc_stats(data).log_likelihood, sum(o_ll(B, P, X[i]) for i in range(3)))
+    return o
+
+
 def job_boundary(P):
-    """witness search beyond the symbolic bound: batch sizes around the integer constants of the source"""
+    """witness search beyond the symbolic bound: batch sizes around the integer constants of the
+    source; extreme parameter scales (float cancellation) for NumPy and Dask input"""
+    P.probe_real("extreme-scales", sc_extreme, [dict(chunks=None), dict(chunks=(3,)), dict(chunks=(1, 2))], tries=1)
     from symexec import loader
 
     sizes = sorted({n for c in loader.int_constants() for n in (c - 1, c, c + 1, 2 * c + 1) if 8 <= n <= 5000})
